@@ -2,12 +2,15 @@
 C03 — report fidelity, the lcov clause at document level. The lcov format is the one report that
 grcov can also read, so its decoder is the reader model of C04/C05 (`Lcov.parse`, tied to
 `parse_lcov`), and the writer model `Lcov.printLcov` is tied byte for byte to `output_lcov` on all
-generated result sets (functions in the iteration order of the writer's hash map: harness
-`c05/src/bytes_all.rs`). The statements below are C05's round-trip theorems with the C03 reading,
-plus the summary lines.
+generated result sets (harness `c05/src/bytes_all.rs`; `printLcov` prints the function table in the
+order it is given, `Writers.FnOrder.lcov dm` = `printLcov` of the LISTED records is the writer with
+its own order – `sorted_functions`, 73c9152 – and demangler, tied byte for byte by
+`c03/src/dm.rs`, op `c03.lcov`). The statements below are C05's round-trip theorems with the C03
+reading, the summary lines, and the round trip with a demangler (`C03_lcov_demangle_*`).
 -/
 import GrcovModel.Props.C05
 import GrcovModel.Lemmas.LcovSummary
+import GrcovModel.Props.C03FnOrder
 namespace Grcov.Props.C03
 open Grcov AList Grcov.Lcov Grcov.Lcov.Spec Grcov.Props.C05
 
@@ -68,6 +71,115 @@ theorem C03_lcov_summary_figures (c : Cov) :
       else some (countFn (fnRecs c.functions), countFndaHit (fndaRecs c.functions))) :=
   ⟨(countFn_fnRecs _).1, (countFn_fnRecs _).2, (countBrda_brdaRecs _).1, (countBrda_brdaRecs _).2,
    (countDa_daRecs _).1, (countDa_daRecs _).2, summaries_stats c⟩
+
+/-! ## with a demangler (the default of the CLI) -/
+
+/-- what the demangler must satisfy for the lcov format: a printed name has no line terminator
+and is valid UTF-8 (`symbolic_demangle` returns a `String`; a name with a line terminator cannot
+come out of a mangled symbol) -/
+def DmLcovOk (dm : Name → Name) (c : Cov) : Prop :=
+  ∀ nf ∈ c.functions, noEol (dm nf.1) ∧ utf8Lossy (dm nf.1) = dm nf.1
+
+/-- Decoding the bytes `output_lcov` writes WITH a demangler: under the guard that the demangler
+is injective on the function names of every file, grcov's reader finds one record per file, in
+order, each with exactly the lines and branch vectors of its file and every function under its
+PRINTED name with its own start line and executed flag – none added, dropped or merged. -/
+theorem C03_lcov_demangle_decode_partial (dm : Name → Name) (rs : List (Bytes × Cov))
+    (h : ∀ pc ∈ rs, WriterOK pc.1 pc.2) (hdm : ∀ pc ∈ rs, DmLcovOk dm pc.2)
+    (hi : ∀ pc ∈ rs, Writers.DmInjOn dm pc.2.functions) :
+    parse true (Writers.FnOrder.lcov dm rs)
+      = .ok (rs.map fun pc => (utf8Lossy pc.1, rtCov (Writers.listed dm pc.2))) ∧
+    ∀ pc ∈ rs, SameData (rtCov (Writers.listed dm pc.2)) (Writers.listed dm pc.2) ∧
+      (rtCov (Writers.listed dm pc.2)).functions.length = pc.2.functions.length ∧
+      ∀ n ∈ keys pc.2.functions,
+        get? (rtCov (Writers.listed dm pc.2)).functions (dm n) = get? pc.2.functions n := by
+  have hok : ∀ pc ∈ rs, WriterOK pc.1 (Writers.listed dm pc.2) := fun pc hpc =>
+    { wf := ⟨(h pc hpc).wf.linesNodup, (h pc hpc).wf.branchesNodup,
+             Writers.nodupKeys_listed dm pc.2 (h pc hpc).wf.functionsNodup (hi pc hpc),
+             (h pc hpc).wf.countsFit⟩
+      path := (h pc hpc).path
+      lineNos := (h pc hpc).lineNos
+      branchLines := (h pc hpc).branchLines
+      fnNames := fun nf hnf => by
+        obtain ⟨nf0, h0, rfl⟩ := (Writers.mem_listed_functions dm pc.2 nf).1 hnf
+        exact ⟨(hdm pc hpc nf0 h0).1, (hdm pc hpc nf0 h0).2, ((h pc hpc).fnNames nf0 h0).2.2⟩ }
+  constructor
+  · have := C05_roundtrip_bytes (Writers.FnOrder.listedK dm rs) (by
+      intro pc hpc
+      simp only [Writers.FnOrder.listedK, List.mem_map] at hpc
+      obtain ⟨pc0, h0, rfl⟩ := hpc
+      exact hok pc0 h0)
+    unfold Writers.FnOrder.lcov
+    rw [this]
+    simp only [Writers.FnOrder.listedK, List.map_map, Function.comp_def]
+  · intro pc hpc
+    have hs := C05_roundtrip_same_data _ (hok pc hpc).wf
+    have he := C05_reimported_record _ (hok pc hpc).wf
+    refine ⟨hs, ?_, fun n hn => ?_⟩
+    · rw [he]; exact Writers.length_listed_functions dm pc.2
+    · rw [hs.functions]
+      exact Writers.get?_listed dm pc.2 (h pc hpc).wf.functionsNodup (hi pc hpc) n hn
+
+/-- Full statement: whatever the demangler prints, the record read back has as many functions as
+the file. -/
+def C03_lcov_demangle_stmt : Prop :=
+  ∀ (dm : Name → Name) (path : Bytes) (c : Cov), WriterOK path c → DmLcovOk dm c →
+    ∃ c', parse true (Writers.FnOrder.lcov dm [(path, c)]) = .ok [(utf8Lossy path, c')] ∧
+      c'.functions.length = c.functions.length
+
+set_option maxRecDepth 100000 in
+/-- False of the code (finding C03-demangle-collapses-overloads): `_Z3fooi` (start 3, executed) and
+`_Z3food` (start 9, not executed) are written as `FN:9,foo` `FN:3,foo` `FNDA:0,foo` `FNDA:1,foo`
+`FNF:2`, and grcov's own reader makes ONE function `foo` of them. -/
+theorem C03_lcov_demangle_false : ¬ C03_lcov_demangle_stmt := by
+  intro h
+  obtain ⟨c', hp, hl⟩ := h witDm [97, 46, 99] witOverloads
+    ⟨⟨by unfold NodupKeys; decide, by unfold NodupKeys; decide, by unfold NodupKeys; decide, by decide⟩,
+     by unfold noEol; decide, by decide, by decide, by unfold noEol; decide⟩
+    (by unfold DmLcovOk noEol; decide)
+  have hv : parse true (Writers.FnOrder.lcov witDm [([97, 46, 99], witOverloads)])
+      = .ok [([97, 46, 99], { lines := [(3, 1), (9, 0)], branches := [],
+                               functions := [([102, 111, 111], ⟨3, true⟩)] })] := by decide +kernel
+  rw [hv] at hp
+  injection hp with hp
+  have : c' = { lines := [(3, 1), (9, 0)], branches := [], functions := [([102, 111, 111], ⟨3, true⟩)] } := by
+    simp at hp; exact hp.2.symm
+  subst this
+  revert hl; decide
+
+/-- The two models of the order agree: `Writers.sortByName` (this package) is `Cli.sortFns` (the
+model of the whole run, C05/C06), and with demangling off the writer model of this file is the
+`Cli.outputLcov` that the C05 streams tie to `output_lcov` (records whose line and branch maps are
+listed ascending, as `BTreeMap`s iterate). -/
+theorem C03_lcov_order_is_cli_order :
+    (∀ fs : List (Name × Fn), Writers.sortByName fs = Cli.sortFns fs) ∧
+    ∀ rs : List (Bytes × Cov),
+      (∀ pc ∈ rs, pc.2.lines = Cli.sortByKey pc.2.lines ∧ pc.2.branches = Cli.sortByKey pc.2.branches) →
+      Writers.FnOrder.lcov id rs = Cli.outputLcov rs := by
+  have ins_eq : ∀ (nf : Name × Fn) (m : List (Name × Fn)),
+      Writers.insertByName nf m = Cli.insertByName nf m := by
+    intro nf m
+    induction m with
+    | nil => rfl
+    | cons x xs ih =>
+      unfold Writers.insertByName Cli.insertByName
+      rw [Writers.nameLe_eq_bytesLe, ih]
+  have sort_eq : ∀ fs : List (Name × Fn), Writers.sortByName fs = Cli.sortFns fs := by
+    intro fs
+    induction fs with
+    | nil => rfl
+    | cons x xs ih =>
+      unfold Writers.sortByName Cli.sortFns
+      rw [ih, ins_eq]
+  refine ⟨sort_eq, fun rs h => ?_⟩
+  unfold Writers.FnOrder.lcov Cli.outputLcov Writers.FnOrder.listedK
+  congr 1
+  apply List.map_congr_left
+  intro pc hpc
+  obtain ⟨h1, h2⟩ := h pc hpc
+  rw [Writers.listed_id]
+  unfold Writers.sortFnsCov Cli.sortCov
+  rw [← h1, ← h2, sort_eq]
 
 /-! non-vacuity: two functions, a branch vector, the largest count -/
 
